@@ -16,7 +16,7 @@ PROPS["C11"] = dict(
     thorough=dict(n=60000, shards=64, run_timeout=3000, coq_case_timeout=3000),
     trusted_base=[
         "model coq/C11/Model.v of api/src/graph/adapter.rs and api/src/dataset/adapter.rs (hand-written)",
-        "the wrapped store is modelled as a duplicate-free list with set semantics (that it behaves so is property C01)",
+        "the wrapped store is modelled as a duplicate-free list with set semantics (that it behaves so is property C01); Vec-backed stores as bags (remove deletes one copy or every copy, as the code does) and failing stores as error values",
         "terms are taken modulo Term::eq and interned to identifiers by the harness (lawfulness of Term::eq is property C02)",
     ],
     assumptions=["the underlying store is set-like (C01)", "Term::eq is an equivalence (C02)"],
